@@ -124,6 +124,9 @@ class C17(core.Property):
       return o.sgd(lr)
     if kind == 'adam':
       return o.adam(lr)
+    if kind == 'sgdw':    # decoupled weight decay: the update depends on the parameter value, not only on its gradient
+      import optax
+      return o.create_optimizer_from_optax(optax.chain(optax.add_decayed_weights(m), optax.sgd(lr)))
     return o.sgd(lr, momentum=m, nesterov=(kind == 'nesterov'))
 
   def hparams(self, name):
@@ -206,7 +209,16 @@ class C17(core.Property):
         lam = rng.choice([0.0, 0.0, 0.5, 1.0])
         if lam and rng.random() < 0.5:
           clusters[0] = [rng.choice([-3, 3, 4]), rng.choice([-4, 3, 4])]     # far from the origin, others near
-        yield {**base, 'K': K, 'clusters': clusters, 'rounds': rounds, 'evals': evals, 'lam': lam}
+        case = {**base, 'K': K, 'clusters': clusters, 'rounds': rounds, 'evals': evals, 'lam': lam,
+                # the for_each_client backend selected before hyp_cluster() is built
+                'backend': rng.choice(['jit', 'jit', 'pmap', 'pmap', 'debug']), 'D': rng.choice([1, 2])}
+        if case['backend'] == 'pmap':
+          # pmap yields clients sorted by decreasing number of batches: clients with different batch counts
+          # (epoch-based batching), half of the time listed smallest first
+          case['batching'] = rng.choice(['e1', 'e2'])
+          if rng.random() < 0.5:
+            case['rounds'] = [sorted(co, key=lambda c: len(c['y'])) for co in rounds]
+        yield case
       elif fam == 'clip':
         # 'inf' / 1e30 / 1e39 (= inf in float32): the "no clipping" entries of a sweep — nothing may change
         clip = rng.choice([0.0625, 0.25, 0.5, 1.0, 4.0, 0.0, 0.0625, 0.25, 1.0, 'inf', 1e30, 1e39])
@@ -223,10 +235,15 @@ class C17(core.Property):
         if rng.random() < 0.08:
           names = names + [4]         # ('out', 'zz'): not a parameter
         steps = []
-        for _ in range(rng.choice([1, 2, 3])):
+        for _ in range(rng.choice([1, 2, 3, 4])):
           steps.append([[rng.choice([-2, -1, 0.5, 1, 3]) for _ in range(int(np.prod(IGNORE_SHAPES[nm])))]
                         for nm in IGNORE_NAMES])
-        yield {'family': 'ignore', 'base': rng.choice([['sgd', 0.25, 0.0], ['momentum', 0.125, 0.5], ['adam', 0.125, 0.0]]),
+        yield {'family': 'ignore', 'base': rng.choice([['sgd', 0.25, 0.0], ['momentum', 0.125, 0.5], ['adam', 0.125, 0.0],
+                                                       ['sgdw', 0.25, 0.5]]),
+               # how the caller hands over the names: the frozen set is the names at the time of the call, whatever
+               # the container and whatever the caller does with it afterwards
+               'names_form': rng.choice(['list', 'tuple', 'generator', 'zip', 'set', 'list_then_clear',
+                                         'list_then_append', 'list_then_replace']),
                'names': names, 'params': [[rng.choice([-1, 0, 1, 2, 5]) for _ in range(int(np.prod(IGNORE_SHAPES[nm])))]
                                           for nm in IGNORE_NAMES], 'steps': steps}
 
@@ -247,6 +264,10 @@ class C17(core.Property):
           yield {**case, 'evals': case['evals'][:k] + [[]] + case['evals'][k + 1:]}
           if len(ev) > 1:
             yield {**case, 'evals': case['evals'][:k] + [ev[:-1]] + case['evals'][k + 1:]}
+    if case.get('backend', 'jit') != 'jit':
+      yield {**case, 'backend': 'jit'}
+    if case.get('names_form', 'list') != 'list':
+      yield {**case, 'names_form': 'list'}
     if 'steps' in case and len(case['steps']) > 1:
       yield {**case, 'steps': case['steps'][:-1]}
 
@@ -266,9 +287,8 @@ class C17(core.Property):
       clients.append((c['id'], self.RecDataset(raw, tl[j], pl[j]), keys[j]))
     return clients, keys, tl, pl
 
-  @staticmethod
-  def rows(b, with_dom=False):
-    mask = b.get('__mask__')
+  def rows(self, b, with_dom=False):
+    mask = b.get(self.cds.EXAMPLE_MASK_KEY)
     res = []
     for i in range(b['x'].shape[0]):
       if mask is None or bool(mask[i]):
@@ -598,10 +618,19 @@ class C17(core.Property):
     tags = ['family=hyp', f'K={K}', f'rounds={len(case["rounds"])}', f'sopt={case["sopt"][0]}']
     lam = case.get('lam', 0.0)
     tags.append(f'regulariser={bool(lam)}')
-    key = ('hyp', tuple(case['copt']), tuple(case['sopt']), case['batching'], lam)
-    alg = self.cached(key, lambda: self.mods['hyp'].hyp_cluster(
-        self.pel[False], self.mk_opt(case['copt']), self.mk_opt(case['sopt']),
-        self.cds.PaddedBatchHParams(batch_size=2), self.hparams(case['batching']), regularizer=self.reg[lam]))
+    backend = case.get('backend', 'jit')
+    D = max(1, min(int(case.get('D', 1)), len(self.jax.local_devices())))
+    tags.append(f'backend={backend}')
+    key = ('hyp', tuple(case['copt']), tuple(case['sopt']), case['batching'], lam, backend, D if backend == 'pmap' else 0)
+
+    def build():
+      from fedjax.core import for_each_client as fec
+      b = fec.ForEachClientPmapBackend(self.jax.local_devices()[:D]) if backend == 'pmap' else backend
+      with fec.for_each_client_backend(b):
+        return self.mods['hyp'].hyp_cluster(
+            self.pel[False], self.mk_opt(case['copt']), self.mk_opt(case['sopt']),
+            self.cds.PaddedBatchHParams(batch_size=2), self.hparams(case['batching']), regularizer=self.reg[lam])
+    alg = self.cached(key, build)
 
     def reg_of(b):
       return 0.5 * lam * float(np.sum(np.asarray(b, np.float64) ** 2))
@@ -760,7 +789,7 @@ class C17(core.Property):
     ref_opt = binit(np.asarray(case['w0'], np.float64))
     problems, corr = [], []
     impl, mcohorts = [], []
-    some_clipped = some_unclipped = False
+    some_clipped = some_unclipped = diag_missing = False
     scale = 1.0 + float(np.max(np.abs(case['w0'])))
     for ri, cohort in enumerate(case['rounds']):
       clients, keys, tl, pl = self._clients(case, ri, 2)
@@ -778,32 +807,36 @@ class C17(core.Property):
       # reference: frozen-state local steps, clip, weighted mean (key-free loss only)
       num, tot = np.zeros(2), 0.0
       for j, c in enumerate(cohort):
-        dg = diag[c['id']]
-        if 'clipped_delta_l2_norm' not in dg:
-          problems.append(f'round {ri}: client {c["id"]} was aggregated without clipping although clip norm {clip} '
-                          f'is configured (raw delta norm {float(dg["delta_l2_norm"])})')
-          continue
-        n_raw, n_clip = float(dg['delta_l2_norm']), float(dg['clipped_delta_l2_norm'])
-        if not (np.isfinite(n_raw) and np.isfinite(n_clip)):
-          problems.append(f'round {ri}: client {c["id"]}: delta norm {n_raw} -> {n_clip} after clipping to {case["clip"]} '
-                          f'is not finite')
-          continue
-        if n_clip > clip * (1 + 1e-5) + 1e-7:
-          problems.append(f'round {ri}: client {c["id"]} is aggregated with a delta of norm {n_clip} > clip norm {clip}')
-        if n_raw <= clip and abs(n_clip - n_raw) > 1e-5 * (1 + n_raw):
-          problems.append(f'round {ri}: client {c["id"]} is below the bound ({n_raw} <= {clip}) but was changed ({n_clip})')
-        if n_raw > clip * (1 + 1e-4):
-          some_clipped = True
-        elif n_raw > 0:
-          some_unclipped = True
+        dg = diag.get(c['id'], {})
+        have_diag = 'clipped_delta_l2_norm' in dg and 'delta_l2_norm' in dg
+        if not have_diag:
+          # the diagnostics do not report the clipped norm: what was aggregated is judged through the resulting
+          # parameters only (reference below / model)
+          diag_missing = True
+        else:
+          n_raw, n_clip = float(dg['delta_l2_norm']), float(dg['clipped_delta_l2_norm'])
+          if not (np.isfinite(n_raw) and np.isfinite(n_clip)):
+            problems.append(f'round {ri}: client {c["id"]}: delta norm {n_raw} -> {n_clip} after clipping to '
+                            f'{case["clip"]} is not finite')
+            continue
+          if n_clip > clip * (1 + 1e-5) + 1e-7:
+            problems.append(f'round {ri}: client {c["id"]} is aggregated with a delta of norm {n_clip} > clip norm {clip}')
+          if n_raw <= clip and abs(n_clip - n_raw) > 1e-5 * (1 + n_raw):
+            problems.append(f'round {ri}: client {c["id"]} is below the bound ({n_raw} <= {clip}) but was changed ({n_clip})')
+          if n_raw > clip * (1 + 1e-4):
+            some_clipped = True
+          elif n_raw > 0:
+            some_unclipped = True
         if not keyed:
           p = before.copy()
           for b in tl[j]:
             _, p = bapply(self.batch_grad(p, b), ref_opt, p)
           delta = before - p
           nr = float(np.linalg.norm(delta))
-          if abs(nr - n_raw) > 1e-4 * (1 + nr):
+          if have_diag and abs(nr - n_raw) > 1e-4 * (1 + nr):
             problems.append(f'round {ri}: client {c["id"]} reports delta norm {n_raw}, reference {nr}')
+          if not have_diag:
+            some_clipped, some_unclipped = some_clipped or nr > clip, some_unclipped or 0 < nr <= clip
           if nr > clip:
             delta = delta * (clip / nr)
           num += len(c['y']) * delta
@@ -821,7 +854,8 @@ class C17(core.Property):
           G = np.zeros(2)
         ref_opt, _ = bapply(G, ref_opt, before)
       scale = max(scale, float(np.max(np.abs(after))))
-      impl.append({'params': after.tolist(), 'norms': {str(c['id']): float(diag[c['id']].get('clipped_delta_l2_norm', diag[c['id']]['delta_l2_norm'])) for c in cohort}})
+      impl.append({'params': after.tolist(), 'norms': {str(c['id']): float(diag[c['id']]['clipped_delta_l2_norm'])
+                                                        for c in cohort if 'clipped_delta_l2_norm' in diag.get(c['id'], {})}})
       if problems:
         break
       cl, tab = [], []
@@ -850,7 +884,7 @@ class C17(core.Property):
         dl = ctx.drv.ask1('c12.mimelite_deltas', keyed, mclip, opt_code(case['copt']), w0, [0.0] * len(w0), mcohorts[0])
         for cid, vec in dl:
           nm = float(np.linalg.norm([float(v) for v in vec]))
-          if abs(nm - impl[0]['norms'][str(cid)]) > 1e-4 * (1 + nm):
+          if str(cid) in impl[0]['norms'] and abs(nm - impl[0]['norms'][str(cid)]) > 1e-4 * (1 + nm):
             corr.append(f'round 0: client {cid}: model aggregates norm {nm}, impl reports {impl[0]["norms"][str(cid)]}')
             break
       ctx.count('model_clip')
@@ -875,10 +909,31 @@ class C17(core.Property):
       return {m: {n: v for n, v in d.items() if (m, n) not in names} for m, d in t.items()}
 
     base = self.mk_opt(case['base'])
-    opt = self.optimizers.ignore_grads_haiku(base, names)
+    form = case.get('names_form', 'list')
+    tags.append(f'names_form={form}')
     params = tree(case['params'])
     problems, corr = [], []
+    impl_err = None
     try:
+      handed = list(names)
+      if form == 'tuple':
+        arg = tuple(handed)
+      elif form == 'generator':
+        arg = (nm for nm in handed)
+      elif form == 'zip':
+        arg = zip([nm[0] for nm in handed], [nm[1] for nm in handed])
+      elif form == 'set':
+        arg = set(handed)
+      else:
+        arg = handed
+      opt = self.optimizers.ignore_grads_haiku(base, arg)
+      # the caller goes on using its list (progressive freezing / unfreezing schedules)
+      if form == 'list_then_clear':
+        handed.clear()
+      elif form == 'list_then_append':
+        handed.extend(nm for nm in IGNORE_NAMES if nm not in names)
+      elif form == 'list_then_replace':
+        handed[:] = [nm for nm in IGNORE_NAMES if nm not in names]
       st = opt.init(params)
       st_ref = base.init(filt(params))
       mstate = 'init'
@@ -897,18 +952,15 @@ class C17(core.Property):
             want = np.asarray(ref[nm[0]][nm[1]])
             if got.shape != want.shape or not np.array_equal(got, want):
               problems.append(f'step {si}: trainable parameter {nm} = {got.tolist()}, base optimizer gives {want.tolist()}')
-        a = [np.asarray(l) for l in jax.tree_util.tree_leaves(st)]
-        b = [np.asarray(l) for l in jax.tree_util.tree_leaves(st_ref)]
-        if len(a) != len(b) or not all(np.array_equal(u, v) for u, v in zip(a, b)):
-          problems.append(f'step {si}: optimizer state differs from the base optimizer run on the trainable entries')
+        # (the wrapper's optimizer state is threaded through the steps but not inspected: a wrong state shows in the
+        # next step's parameters)
         if problems:
           break
         # model (exact optimizers only)
         if case['base'][0] in KIND_CODE:
           ans = ctx.drv.ask1('c17.ignore', opt_code(case['base']), names_idx,
                              [[i, [float(v) for v in vals]] for i, vals in enumerate(gvals)], mstate, mparams)
-          if ans == 'KeyError':
-            corr.append(f'step {si}: model raises KeyError, implementation ran')
+          if ans == 'KeyError':      # only for a listed name that is not a parameter (outside the property)
             break
           mstate, mp = ans[0], sorted(ans[1])
           for i, vec in mp:
@@ -921,17 +973,14 @@ class C17(core.Property):
           mparams = [[i, vec] for i, vec in mp]
           ctx.count('model_ignore_steps')
         params = {m: dict(d) for m, d in new.items()}
-      impl_err = None
-    except KeyError as e:
-      impl_err = 'KeyError'
+    except Exception as e:       # noqa
+      impl_err = f'{type(e).__name__}: {str(e)[:100]}'
     if 4 in names_idx:
-      ans = ctx.drv.ask1('c17.ignore', [0, 0.25, 0.0], names_idx,
-                         [[i, [0.0] * len(v)] for i, v in enumerate(case['params'])], 'init',
-                         [[i, [float(x) for x in v]] for i, v in enumerate(case['params'])])
-      if impl_err != 'KeyError' or ans != 'KeyError':
-        corr.append(f'a listed name that is not a parameter: impl {impl_err or "ran"}, model {ans if ans == "KeyError" else "ran"}')
+      # a listed name that is not a parameter is outside the property: the code may reject it (any exception; the model
+      # answers KeyError) or ignore it — then the checks above applied to the names that are parameters
+      ctx.count('ignore_unknown_name_rejected' if impl_err else 'ignore_unknown_name_accepted')
     elif impl_err:
-      problems.append(f'ignore_grads_haiku raised {impl_err} on names that are parameters')
+      problems.append(f'ignore_grads_haiku raised {impl_err} on names that are parameters (handed over as {form})')
     nontrivial = 0 < len(names) < 4 and any(any(v != 0 for v in g) for step in case['steps'] for g in step)
     return Outcome(oracle_fail='; '.join(problems[:2]) or None, corr_fail='; '.join(corr[:2]) or None,
                    nontrivial=bool(nontrivial), tags=tuple(tags))
